@@ -11,6 +11,11 @@
 //	{"ev":"update","op":"apply","label":L}          UpdateRawData(policies labelled L)            (POST /apply_policies with a body)
 //	{"ev":"update","op":"reload","label":L}         policies file rewritten with L, ReloadFromFile()
 //	{"ev":"update","op":"revdf"} / {"op":"revll"}   RevertToDiagnosisFree() / RevertToLastLoaded()  (fail-safe reverts)
+//	{"ev":"update",...,"fail":k}                    the same while the fake admin API refuses its k-th call (503): the update may fail
+//	{"ev":"gaplookup","txn":id,"at":P,"inner":[..]} the lookup runs on a goroutine of its own and is held at the yield point
+//	                                                pa.<P> (pin.before_lock | pin.before_vacuumkey) while the inner events run
+//	{"ev":"gapupdate","op":..,"at":"version.before_vacuumkey","inner":[..]}   an update held between installing the new
+//	                                                version and VacuumKey(previous) while the inner events (lookups, adv) run
 //	{"ev":"adv","d":seconds}                        mock clock advanced instant by instant: every background vacuum pass that
 //	                                                becomes due is awaited through the vacuum.pass hook before time moves on
 //
@@ -26,6 +31,7 @@ import (
 	"runtime"
 	"sort"
 	"strings"
+	"sync"
 	"time"
 
 	"lunar/engine/config"
@@ -37,11 +43,14 @@ import (
 )
 
 type Event struct {
-	Ev    string `json:"ev"`
-	Label string `json:"label,omitempty"`
-	Txn   string `json:"txn,omitempty"`
-	Op    string `json:"op,omitempty"`
-	D     int    `json:"d,omitempty"`
+	Ev    string  `json:"ev"`
+	Label string  `json:"label,omitempty"`
+	Txn   string  `json:"txn,omitempty"`
+	Op    string  `json:"op,omitempty"`
+	D     int     `json:"d,omitempty"`
+	Fail  int     `json:"fail,omitempty"`  // update: the fake admin API refuses its Fail-th call from now on (503)
+	At    string  `json:"at,omitempty"`    // gaplookup / gapupdate: the yield point at which the call is held
+	Inner []Event `json:"inner,omitempty"` // ... while these events run
 }
 
 type Script struct {
@@ -57,24 +66,75 @@ type passEv struct {
 
 var passCh = make(chan passEv, 64)
 
-func sink(point string, kv ...any) {
-	if point != "vacuum.pass" {
-		return
+// vacuums that started their background loop since the driver last looked (hook vacuum.start, raised synchronously
+// inside the call that handed the vacuum its first key)
+var (
+	startMu  sync.Mutex
+	startedQ []string
+)
+
+// gate: one armed yield point (pa.*) at which the goroutine that reaches it first is held until released
+var gate struct {
+	mu      sync.Mutex
+	armed   bool
+	point   string
+	txn     string
+	reached chan struct{}
+	release chan struct{}
+}
+
+func short(name string) string {
+	if i := strings.LastIndex(name, "::"); i >= 0 {
+		return name[i+2:]
 	}
+	return name
+}
+
+func sink(point string, kv ...any) {
 	m := map[string]any{}
 	for i := 0; i+1 < len(kv); i += 2 {
 		m[fmt.Sprint(kv[i])] = kv[i+1]
 	}
-	name := fmt.Sprint(m["name"])
-	if i := strings.LastIndex(name, "::"); i >= 0 {
-		name = name[i+2:]
+	switch {
+	case point == "vacuum.pass":
+		removed, _ := m["removed"].(int)
+		passCh <- passEv{short(fmt.Sprint(m["name"])), removed}
+	case point == "vacuum.start":
+		startMu.Lock()
+		startedQ = append(startedQ, short(fmt.Sprint(m["name"])))
+		startMu.Unlock()
+	case strings.HasPrefix(point, "pa."):
+		gate.mu.Lock()
+		hit := gate.armed && "pa."+gate.point == point && (gate.txn == "" || gate.txn == fmt.Sprint(m["txn"]))
+		if hit {
+			gate.armed = false
+		}
+		reached, release := gate.reached, gate.release
+		gate.mu.Unlock()
+		if hit {
+			reached <- struct{}{}
+			<-release
+		}
 	}
-	removed, _ := m["removed"].(int)
-	passCh <- passEv{name, removed}
+}
+
+func arm(point, txn string) (chan struct{}, chan struct{}) {
+	gate.mu.Lock()
+	defer gate.mu.Unlock()
+	gate.armed, gate.point, gate.txn = true, point, txn
+	gate.reached, gate.release = make(chan struct{}), make(chan struct{})
+	return gate.reached, gate.release
+}
+
+func disarm() {
+	gate.mu.Lock()
+	gate.armed = false
+	gate.mu.Unlock()
 }
 
 type run struct {
 	fx   *c11acc.Fixture
+	fake *c11acc.FakeHAProxy
 	tr   *vh.Trace
 	ids  map[*config.PoliciesData]int
 	seen map[string]bool // vacuums that have started; each keeps exactly one timer armed between its passes
@@ -132,49 +192,160 @@ func (r *run) settled() {
 	}
 }
 
-// started: a vacuum starts with the first key handed to it and passes once immediately.
-func (r *run) started(name string) {
-	if r.seen[name] {
-		return
+// afterOp: every vacuum that the call just made start passes once immediately; wait for that pass and for its timer.
+func (r *run) afterOp() {
+	startMu.Lock()
+	names := startedQ
+	startedQ = nil
+	startMu.Unlock()
+	for _, name := range names {
+		r.awaitPass(name)
+		r.seen[name] = true
 	}
-	r.awaitPass(name)
-	r.seen[name] = true
 	r.settled()
+}
+
+func (r *run) logLookup(txn string, p *config.PoliciesData, cs []int) {
+	ev := r.snap(vh.Ev{"ev": "lookup", "txn": txn})
+	label, df := c11acc.Describe(p)
+	ev["ver"], ev["label"], ev["df"] = r.ids[p], label, df
+	if cs != nil {
+		ev["cs"] = cs
+	}
+	r.tr.Add(ev)
 }
 
 func (r *run) lookup(txn string) {
 	p := r.fx.Accessor.GetTxnPoliciesData(config.TxnID(txn))
-	r.started("txns")
-	ev := r.snap(vh.Ev{"ev": "lookup", "txn": txn})
-	label, df := c11acc.Describe(p)
-	ev["ver"], ev["label"], ev["df"] = r.ids[p], label, df
+	r.afterOp()
+	r.logLookup(txn, p, nil)
+}
+
+func (r *run) doUpdate(e Event) error {
+	switch e.Op {
+	case "apply":
+		return r.fx.Accessor.UpdateRawData(c11acc.PoliciesYAML(e.Label))
+	case "reload":
+		r.fx.WritePoliciesFile(e.Label)
+		return r.fx.Accessor.ReloadFromFile()
+	case "revdf":
+		return r.fx.Accessor.RevertToDiagnosisFree()
+	case "revll":
+		return r.fx.Accessor.RevertToLastLoaded()
+	}
+	vh.Die("unknown update op %q", e.Op)
+	return nil
+}
+
+func (r *run) logUpdate(e Event, ok bool, gap string) {
+	ev := r.snap(vh.Ev{"ev": "update", "op": e.Op, "label": e.Label, "ok": ok})
+	label, df := c11acc.Describe(r.fx.Accessor.GetCurrentPoliciesData())
+	ev["clabel"], ev["cdf"] = label, df
+	if e.Fail > 0 {
+		ev["fail"] = e.Fail
+	}
+	if gap != "" {
+		ev["gap"] = gap
+	}
 	r.tr.Add(ev)
 }
 
 func (r *run) update(e Event) {
-	var err error
-	switch e.Op {
-	case "apply":
-		err = r.fx.Accessor.UpdateRawData(c11acc.PoliciesYAML(e.Label))
-	case "reload":
-		r.fx.WritePoliciesFile(e.Label)
-		err = r.fx.Accessor.ReloadFromFile()
-	case "revdf":
-		err = r.fx.Accessor.RevertToDiagnosisFree()
-	case "revll":
-		err = r.fx.Accessor.RevertToLastLoaded()
-	default:
-		vh.Die("unknown update op %q", e.Op)
-	}
-	if err != nil {
-		// no script of this harness makes an update fail: a failure is a problem of the fixture (fake admin API, files)
+	r.fake.FailNext(e.Fail)
+	err := r.doUpdate(e)
+	r.fake.FailNext(0)
+	if err != nil && e.Fail == 0 {
+		// only a refused admin call makes an update of this harness fail: anything else is a problem of the fixture
 		vh.Die("update %s failed: %v", e.Op, err)
 	}
-	r.started("policies")
-	ev := r.snap(vh.Ev{"ev": "update", "op": e.Op, "label": e.Label, "ok": err == nil})
-	label, df := c11acc.Describe(r.fx.Accessor.GetCurrentPoliciesData())
-	ev["clabel"], ev["cdf"] = label, df
-	r.tr.Add(ev)
+	r.afterOp()
+	r.logUpdate(e, err == nil, "")
+}
+
+func (r *run) curNow() int {
+	cur, _, _ := r.fx.Accessor.VerifSnapshot()
+	return int(cur)
+}
+
+// gapLookup holds the lookup of e.Txn at the yield point e.At while the inner events run (updates, lookups of other
+// transactions), then lets it finish.  cs = the versions that were current at some instant of the lookup.
+func (r *run) gapLookup(e Event) {
+	reached, release := arm(e.At, e.Txn)
+	done := make(chan *config.PoliciesData, 1)
+	go func() { done <- r.fx.Accessor.GetTxnPoliciesData(config.TxnID(e.Txn)) }()
+	select {
+	case p := <-done: // the call does not pass the yield point (the transaction is pinned already)
+		disarm()
+		r.afterOp()
+		r.logLookup(e.Txn, p, nil)
+		return
+	case <-reached:
+	case <-time.After(10 * time.Second):
+		vh.Die("lookup neither returned nor reached %s", e.At)
+	}
+	cs := []int{r.curNow()}
+	for _, in := range e.Inner {
+		if in.Ev == "adv" || (in.Ev == "lookup" && in.Txn == e.Txn) {
+			vh.Die("a held lookup takes no time and is the only one of its transaction")
+		}
+		r.exec(in)
+		if c := r.curNow(); c != cs[len(cs)-1] {
+			cs = append(cs, c)
+		}
+	}
+	close(release)
+	p := <-done
+	r.afterOp()
+	r.logLookup(e.Txn, p, cs)
+}
+
+// gapUpdate holds an update between the locked installation of the new version and the VacuumKey of the previous one.
+func (r *run) gapUpdate(e Event) {
+	reached, release := arm(e.At, "")
+	done := make(chan error, 1)
+	go func() { done <- r.doUpdate(e) }()
+	select {
+	case err := <-done:
+		disarm()
+		if err != nil {
+			vh.Die("update %s failed: %v", e.Op, err)
+		}
+		r.afterOp()
+		r.logUpdate(e, true, "")
+		return
+	case <-reached:
+	case <-time.After(10 * time.Second):
+		vh.Die("update neither returned nor reached %s", e.At)
+	}
+	r.logUpdate(e, true, e.At) // the new version is installed and visible from here on
+	for _, in := range e.Inner {
+		if in.Ev == "update" || in.Ev == "gapupdate" {
+			vh.Die("updates do not overlap")
+		}
+		r.exec(in)
+	}
+	close(release)
+	if err := <-done; err != nil {
+		vh.Die("update %s failed: %v", e.Op, err)
+	}
+	r.afterOp()
+}
+
+func (r *run) exec(e Event) {
+	switch e.Ev {
+	case "lookup":
+		r.lookup(e.Txn)
+	case "update":
+		r.update(e)
+	case "adv":
+		r.adv(e.D)
+	case "gaplookup":
+		r.gapLookup(e)
+	case "gapupdate":
+		r.gapUpdate(e)
+	default:
+		vh.Die("unknown event %q", e.Ev)
+	}
 }
 
 func (r *run) adv(d int) {
@@ -236,19 +407,16 @@ func main() {
 				case "reset":
 					n++
 					dir := filepath.Join(os.Args[3], fmt.Sprintf("acc-%d", n))
-					r = &run{fx: c11acc.New(dir, e.Label, start), tr: tr, ids: map[*config.PoliciesData]int{}, seen: map[string]bool{}}
+					startMu.Lock()
+					startedQ = nil
+					startMu.Unlock()
+					r = &run{fx: c11acc.New(dir, e.Label, start), fake: fake, tr: tr, ids: map[*config.PoliciesData]int{}, seen: map[string]bool{}}
 					ev := r.snap(vh.Ev{"ev": "reset", "label": e.Label})
 					label, df := c11acc.Describe(r.fx.Accessor.GetCurrentPoliciesData())
 					ev["clabel"], ev["cdf"] = label, df
 					tr.Add(ev)
-				case "lookup":
-					r.lookup(e.Txn)
-				case "update":
-					r.update(e)
-				case "adv":
-					r.adv(e.D)
 				default:
-					vh.Die("unknown event %q", e.Ev)
+					r.exec(e)
 				}
 			}
 			if r != nil {
